@@ -154,7 +154,21 @@ def load_registry():
 
 def make_overlay(tag):
     """Copy /repo's current working tree (crate sources only) and add the harness modules."""
-    root = os.path.join(SCRATCH_ROOT, "%s-%d" % (tag, os.getpid()))
+    # a stable path per (property, tier) keeps cargo's fingerprint stable, so that repeated runs
+    # overwrite their build output instead of accumulating it; a live concurrent run of the same
+    # check gets a pid-suffixed directory instead.
+    root = os.path.join(SCRATCH_ROOT, tag)
+    pidfile = root + ".pid"
+    try:
+        other = int(open(pidfile).read().strip())
+        os.kill(other, 0)
+        root = os.path.join(SCRATCH_ROOT, "%s-%d" % (tag, os.getpid()))
+        pidfile = root + ".pid"
+    except (OSError, ValueError):
+        pass
+    os.makedirs(SCRATCH_ROOT, exist_ok=True)
+    with open(pidfile, "w") as f:
+        f.write(str(os.getpid()))
     if os.path.exists(root):
         shutil.rmtree(root)
     ws = os.path.join(root, "ws")
@@ -337,7 +351,7 @@ def run_config(crate_dir, cfg, harnesses, tier, logdir, jobs, extra=None):
     cmd = ["cargo", "kani", "--target-dir", tgt, "--no-default-features",
            "--features", features_of(cfg), "-Z", "stubbing", "-Z", "unstable-options",
            "--harness-timeout", "%ds" % hto, "-j", str(max(2, jobs)),
-           "--output-format", "terse", "--exact"]
+           "--output-format", "terse", "--exact", "--no-assertion-reach-checks"]
     for h in harnesses:
         cmd += ["--harness", h.full]
     if extra:
@@ -491,7 +505,7 @@ def cmd_check(args):
     logdir = os.path.join(BUILD, "logs", "%s-%s" % (prop, tier))
     shutil.rmtree(logdir, ignore_errors=True)
     os.makedirs(logdir)
-    root, crate_dir = make_overlay(prop)
+    root, crate_dir = make_overlay("%s-%s" % (prop, tier))
     known = load_known()
     exit_code = 0
     try:
@@ -643,6 +657,10 @@ def cmd_check(args):
     finally:
         if not os.environ.get("VERIF_KEEP"):
             shutil.rmtree(root, ignore_errors=True)
+        try:
+            os.remove(root + ".pid")
+        except OSError:
+            pass
     return exit_code
 
 
